@@ -229,7 +229,8 @@ def rule_R3(ctx, f):
     if not b:
         return
     ins = b.calls_to(["BTreeSet::insert", "HashSet::insert"])
-    nameset = peel(ins[0].args[0]) if ins else None
+    from pvrules import seqeval as _sq
+    nameset = peel(_sq._resolve_join(ins[0].args[0], b)) if ins else None
     for grp, coll in (("const", P(4)), ("variable", P(3))):
         found = False
         for c in ins:
@@ -252,7 +253,7 @@ def rule_R3(ctx, f):
     for c in b.calls_to(["BTreeSet::contains", "HashSet::contains", "HashMap::contains_key", "BTreeMap::contains_key"]):
         a = peel(c.args[1], transparent=["Deref::deref", "AsRef::as_ref", "String::as_str"])
         e = elem_of(a)
-        container = peel(c.args[0])
+        container = peel(_sq._resolve_join(c.args[0], b))
         if e and peel(e[0]) == P(3) and (container == nameset or container == P(4)):
             be = b.bool_edges(c.target)
             if be and be[0] == c.result_term() and rejecting(b, be[1]):
